@@ -1,2 +1,31 @@
-import EmbitModel
-def main : IO Unit := IO.println "ok"
+import EmbitModel.Driver.Tx
+/-
+  Native line-protocol driver over the executable model and spec (no Mathlib reachable from here).
+  One request per line `op arg…`; one answer per line: `ok …`, `none` (model rejects), or `bad-op`.
+-/
+open Embit.Driver
+
+def handlers : List (String → List String → Option String) := [handleTx]
+
+def dispatch (line : String) : String :=
+  match (line.splitOn " ").filter (· ≠ "") with
+  | [] => "bad-op"
+  | op :: args =>
+    let rec go : List (String → List String → Option String) → String
+      | [] => "bad-op"
+      | h :: hs => match h op args with
+        | some r => r
+        | none => go hs
+    go handlers
+
+partial def loop (h : IO.FS.Stream) (out : IO.FS.Stream) : IO Unit := do
+  let line ← h.getLine
+  if line.isEmpty then return ()
+  let l := line.trimAscii.toString
+  out.putStrLn (dispatch l)
+  loop h out
+
+def main : IO Unit := do
+  let stdin ← IO.getStdin
+  let stdout ← IO.getStdout
+  loop stdin stdout
